@@ -402,11 +402,59 @@ func c09ToleranceReload(c *vlib.Ctx) {
 	}
 }
 
+// c09RunningClock: a real clock never returns the same reading twice. Every read of the injected
+// clock advances it by a small step, so the readings one request takes (timestamp check, replay
+// cache) differ; the replay arrives a few steps before, at and after ts+tolerance. The captured
+// request honoured a second time is a refutation wherever the individual readings fell.
+func c09RunningClock(c *vlib.Ctx) {
+	steps := []time.Duration{time.Nanosecond, 50 * time.Nanosecond, time.Microsecond, time.Millisecond, 400 * time.Millisecond}
+	for _, tol := range []time.Duration{time.Second, 30 * time.Second, 5 * time.Minute} {
+		for _, step := range steps {
+			for k := -1; k <= 6; k++ {
+				for _, others := range []int{0, 3} {
+					clock := vlib.NewVClock(c08T0)
+					auth := ingress.NewHMACAuth([][]byte{[]byte("k1")})
+					auth.Tolerance = tol
+					auth.Now = clock.Now
+					clock.SetAfterRead(func() { clock.Advance(step) })
+					ts := c08T0.Unix()
+					limit := ts*1e9 + int64(tol)
+					var obs []nonceObs
+					send := func(nonce string, ts int64, tag string) {
+						body := []byte("payload-" + nonce)
+						req := signedReq("k1", "/r", ts, nonce, body)
+						at := clock.NowNS()
+						err := auth.Verify(req, "/r", body)
+						obs = append(obs, nonceObs{Nonce: nonce, TS: ts, Arrival: at, Accepted: err == nil, Tag: tag})
+					}
+					send("N", ts, "original")
+					// the replay's first clock reading is k steps before ts+tolerance
+					clock.Set(time.Unix(0, limit-int64(k)*int64(step)))
+					for o := 0; o < others; o++ {
+						at := clock.NowNS()
+						clock.SetAfterRead(nil)
+						send(fmt.Sprintf("o%d", o), time.Unix(0, at).Unix(), "other")
+						clock.SetAfterRead(func() { clock.Advance(step) })
+					}
+					send("N", ts, "replay_running_clock")
+					send("N", ts, "replay_running_clock")
+					clock.SetAfterRead(nil)
+					c.Count("evaluations", int64(len(obs)))
+					c.Count("running_clock_cases", 1)
+					c.Distinct("nontrivial", fmt.Sprintf("l1run:tol=%s:step=%s:k=%d:others=%d", tol, step, k, others))
+					nonceLedger(c, "L1", tol, obs, map[string]any{"case": "running_clock", "step": step.String(), "first_reading_steps_before_limit": k})
+				}
+			}
+		}
+	}
+}
+
 // C09: replay protection.
 func C09(c *vlib.Ctx) {
 	c.Rule("L1: ingress.HMACAuth under a virtual clock, original at ts-tol..ts+tol, replays at the same instant, +1ns, random instants, ts+tol-1ns, exactly ts+tol (twice), +1ns and beyond, with 0-5000 other nonces interleaved (cleanup path), bad-signature requests and other timestamps re-using the nonce; 16 goroutines sending identical requests at one instant (-race). L2: original, then a reload through the production path (unchanged file, changed file, two reloads, Admin management mutation; reloads that raise / lower the route's tolerance before or after the old window closed, with other signed traffic in between), then the replay. L3 (thorough): the real binary with SIGHUP. Oracle: per-nonce acceptance ledger - for every pair of accepted requests with one nonce the later arrival must be > ts_first + tolerance. distinct_nontrivial = distinct (layer, tolerance, first-arrival offset, interleaving size / reload kind) classes.")
 	c.Assume("the ledger is the consequence every reading of the statement shares: weaker than 'never again for the life of the process', exactly what an expiry at ts+tolerance guarantees")
 	c09L1(c)
+	c09RunningClock(c)
 	c09Concurrent(c)
 	c09Reload(c)
 	c09ToleranceReload(c)
